@@ -338,6 +338,8 @@ def m_table_remove_entry(ip, fr, c, t, args, st):
     except Exception:
         pass
     ip.events.append(("table_remove", {"state": st.fork(), "lru": lru, "mru": mru, "chain": fr.chain, "loc": c.loc, "in": fr.body.path}))
+    if not lru and not mru:
+        ip.gadd(st, "keyed_removal_done", "yes")     # (both outcomes: the key is gone from the table afterwards)
     s_none = st.fork()
     f = dict(loc[2][2])
     # which entry?  Keys are unique in the table (C04.2), so a removal by the key that a lookup in this very state found, or by the
